@@ -1021,6 +1021,16 @@ impl Cluster {
     }
 
     pub async fn apply(&mut self, ev: &Event) -> Res<()> {
+        let r = self.apply_inner(ev).await;
+        // the simulated network carries one election at a time: a second candidate (two timers
+        // that became due within the same event) ends the path - it is pruned, not judged
+        if self.net.0.lock().unwrap().nested_election && self.stuck.is_none() {
+            self.stuck = Some("a second node started an election while one was in flight (harness limit)".into());
+        }
+        r
+    }
+
+    async fn apply_inner(&mut self, ev: &Event) -> Res<()> {
         self.events_applied += 1;
         self.history.push(ev.clone());
         self.sync_clock();
